@@ -317,7 +317,7 @@ def run(ctx: common.Ctx):
     tgraph.run_getitem(ctx, cases)
     # boolean-mask selection at graph level: Reshape + Compress (Model/TGraphScatter.maskGraph; Props/C08MaskGraph.lean)
     from .. import scattertie
-    scattertie.run(ctx, 80 if ctx.tier == "quick" else 1600, label="mask", kinds=("mask", "intindex"))
+    scattertie.run(ctx, 80 if ctx.tier == "quick" else 800, label="mask", kinds=("mask", "intindex"))
 
 
 def nontrivial(idx):
